@@ -1,35 +1,84 @@
 """C04 - Wait returns a terminal, quiescent, consistent, truthful plan.
 
-STATUS: engine-core PIPELINE TEST (the C04 engineer owns this file and coq/engine/props/C04.v and will replace the
-monitor by mon_final and add the theorems c04_final_consistent / image_invariant / final_sound).
+Coq project coq/c04 (on top of the shared engine core coq/engine):
+  MonC04.v     mon_final = the formal statement of the property over one observed trace (read it first);
+  props/C04.v  the theorems: every trace the observable automaton accepts satisfies mon_final_core.
 
-What runs now, end to end, through props/engine_common.run_engine_check:
+What runs, through props/engine_common.run_engine_check:
   * every trace of the real engine (profile `final`: a failing stage at every position - pre, continuous initial /
     k-th run, sequence, post, deferred, plan and block level, bypass - and a continuous check parked in flight by the
     director exactly when the last block / the block finishes; plus `mixed`; plus 2-6 plans on one Workstream) must be
     ACCEPTED by the observable automaton (coq/engine/Auto.v) - which includes: the terminal plan write equals
     Final.final of the durable image, Release only after it, the released plan equals the durable image, nothing but
     equal re-reads afterwards;
-  * the simple monitor MonBasic.mon_basic (released; plan Completed|Failed; nothing Running in the released plan; no
-    activity after the release; the re-read 30 ms later equals the released plan) must hold on every trace;
+  * mon_final (MonC04.v) must hold on every trace: a false monitor is a concrete violation with that trace as replay;
   * Hang (Wait does not return within 5 s, re-run 3x in fresh children) violates C04's release obligation;
   * Final.v = finalStates by direct function equality on generated status combinations (verifhooks.FinalStates).
 """
 from props import engine_common as ec
 
+CODES = {
+    1: "never released", 2: "plan not Completed/Failed", 3: "an object of the released plan is Running",
+    4: "a plugin is still executing at release", 6: "Completed plan inconsistent with its blocks/check groups",
+    7: "sequence status inconsistent with its actions", 8: "action Completed <-> attempts and last one ok fails",
+    9: "time flags (start<=end, set/unset) wrong", 10: "released action differs from what the trace shows ran",
+    11: "failure reason is not the stage the trace shows failing / unset <-> Completed fails",
+    12: "activity after release", 13: "re-read differs from the released plan", 14: "released plan lacks an object",
+    15: "status/reason of the engine's last plan write differ from the released plan",
+    16: "the reason the engine wrote is not the stage the trace shows failing",
+}
+
 
 def run(ctx):
-    ec.run_engine_check(
+    # the shared driver writes the evidence itself: capture it, add the per-clause breakdown, then write it
+    write_evidence, captured = ctx.evidence, {}
+    ctx.evidence = lambda coverage, assumptions=None, level="proof": captured.update(cov=coverage, asm=assumptions, level=level)
+    out = ec.run_engine_check(
         ctx,
         profile=[("final", 224, 2400), ("mixed", 96, 1200)],
         n_quick=0, n_thorough=0,
-        extra_header="From Coercion.Engine Require Import MonBasic.",
-        monitors=["mon_basic", ("mon_basic_diag", "list")],
+        extra_header="From Coercion.C04 Require Import MonC04.",
+        monitors=["mon_final", ("mon_final_diag", "list")],
         release_obligation=True,
         multi_quick=40, multi_thorough=400,
         finalfn=(2000, 7776),
-        rule_extra="Pipeline test of the engine core: the monitor is MonBasic (not yet mon_final).",
-        not_covered=["Not covered yet (C04 owner): consistent fin, truthful tr fin and the reason monitor as separate monitors "
-                     "(the automaton's acceptance already forces the terminal write = Final.final(image) and fin = image)",
-                     "wall-clock monotonicity of start/end times"],
+        proj="c04",
+        rule_extra="mon_final_diag codes: %s." % "; ".join("%d %s" % kv for kv in sorted(CODES.items())),
+        not_covered=["Not covered: wall-clock monotonicity of start/end times (the time flags of the released plan are "
+                     "checked on the implementation by mon_times; the automaton carries no clock, so the theorems are about "
+                     "mon_final_core = every other clause)",
+                     "whether a block's own status is right for what its sequences/checks did is C03's clause; retry budgets C05's"],
     )
+    ctx.evidence = write_evidence
+    if out:
+        # which clauses of mon_final fail, on how many traces; one replay per distinct SET of failing clauses
+        # (smallest trace) beyond the one the shared driver already wrote, so that different defects are
+        # reported separately (at most 8)
+        per, sig = {}, {}
+        for c, r in zip(out["live"], out["results"]):
+            if r is None or len(r) < 3 or (r[2] and r[2][0] == 0):
+                continue
+            for code in r[2]:
+                per.setdefault(code, []).append(c["id"])
+            sig.setdefault(tuple(sorted(r[2])), []).append((c, r))
+        shown = set()
+        for m, lst in out["mon_bad"].items():
+            lst.sort(key=lambda x: ec._size(x[0]))
+            if lst and lst[0][1] and len(lst[0][1]) > 2:
+                shown.add(tuple(sorted(lst[0][1][2])))
+        mons = ec._mon_specs(["mon_final", ("mon_final_diag", "list")])
+        for k in sorted(sig, key=lambda k: (len(k), k)):
+            if k in shown or len(shown) >= 8:
+                continue
+            shown.add(k)
+            sig[k].sort(key=lambda x: ec._size(x[0]))
+            c, r = sig[k][0]
+            ctx.violation(ec._replay_obj(ctx, c, "monitor-false", "mon_final false on the trace of the real engine: failing clauses %s (%d traces "
+                                         "fail exactly these)" % ("; ".join("%d %s" % (x, CODES.get(x, "?")) for x in k), len(sig[k])), r, mons,
+                                         dict(failing_monitor="mon_final", failing_clauses=list(k),
+                                              failing_cases=[x[0]["id"] for x in sig[k][:30]])))
+        if "cov" in captured:
+            captured["cov"]["mon_final_clauses_failing"] = {"%d %s" % (k, CODES.get(k, "?")): len(v) for k, v in sorted(per.items())}
+            captured["cov"]["mon_final_failing_clause_sets"] = {str(list(k)): len(v) for k, v in sorted(sig.items())}
+    if "cov" in captured:
+        write_evidence(captured["cov"], captured["asm"], captured["level"])
